@@ -10,9 +10,12 @@ ENGINES = {
     'C16': 'sim.engines.c16',
     'C18': 'sim.engines.c18',
     'C19': 'sim.engines.c19',
+    'C20': 'sim.engines.c20',
 }
 
 ENGINE_TABLE = [
+    {'name': 'E-trace', 'path': 'sim/engines/c20.py', 'serves_properties': ['C20'],
+     'kind_free_text': 'generated K signatures, rewrite rules and execution traces delivered event by event to the real K front end (builder API, and stub Kore terms through from_kore_definition / get_proof_hints) with event-stream faults (drop, duplicate, swap, corrupt substitution, wrong rule) against a sequential chain model; the resulting module is serialised and checked by the real checker and R1'},
     {'name': 'E-process', 'path': 'sim/procjob.py + sim/engines/c15.py c16.py c18.py', 'serves_properties': ['C15', 'C16', 'C18'],
      'kind_free_text': 'the front end under test runs as fresh OS processes (setarch -R, seeded PYTHONHASHSEED) that fork per job; jobs carry a seeded heap-noise prelude, a seeded history of earlier jobs in the same process and write faults of the in-memory file system; outputs are compared with a pristine reference process and with the Metamath reference model R4'},
     {'name': 'E-pipeline', 'path': 'sim/engines/pipeline.py', 'serves_properties': ['C02', 'C03', 'C14', 'C19'],
@@ -24,6 +27,12 @@ ENGINE_TABLE = [
 ]
 
 META = {
+    'C20': {
+        'engine': 'E-trace', 'level': 'exploration', 'design_ref': 'DESIGN.md section 4 (C20)',
+        'technique': 'deterministic simulation of rewrite-event streams with drop/duplicate/reorder/corrupt faults against a sequential reference model of the rewrite chain, followed by the generator -> checker pipeline',
+        'text': 'Seeded signatures, rules with variables and traces from an independent rewriter are delivered event by event to the real ExecutionProofExp (through the builder API and, with stub Kore terms, through from_kore_definition + convert_substitutions); against the chain model R5 the front end must refuse exactly at the first event that does not start at the reached configuration and otherwise hold exactly the claims, advertised conclusions, current configuration and axioms R5 predicts; the finished module is serialised with both optimise settings, accepted by the real checker and R1 and passes the C03 journal check. Event-stream faults are injected in 45% of the runs.',
+        'note': 'pyk is a STUB (sim/stubs/pyk): the Kore-conversion clause is checked against my reading of the field order the repository\'s match statements imply; everything else uses the repository\'s own builder API and pattern classes. Known findings D16 (repeated identical step refused) and D17 (kseq-valued substitution refused) are reported as KNOWN-FINDING.',
+    },
     'C01': {
         'engine': 'E-machine', 'level': 'exploration', 'design_ref': 'DESIGN.md section 4 (C01)',
         'technique': 'deterministic simulation of the checker as a stepped machine over seeded instruction streams and stream faults, with a semantic soundness invariant (finite-model evaluation) checked after every instruction',
